@@ -53,7 +53,8 @@ def configs(tier, seed):
     for (g, p) in [(0, 0), (0, 1), (1, 0), (1, 1), (2, 1), (1, 2), (2, 2)]:
         out.append(dict(kind="match", n_gt=g, n_pr=p, nodes=1 if g * p >= 4 else 2))
     for (n, m) in [(1, 1), (2, 2), (2, 3), (3, 2)] + ([(3, 3)] if tier == "thorough" else []):
-        out.append(dict(kind="assign", n=n, m=m, algo="greedy"))
+        if (n, m) != (3, 3):  # greedy sorts all n*m symbolic scores: 9! orderings exceed the path budget
+            out.append(dict(kind="assign", n=n, m=m, algo="greedy"))
         out.append(dict(kind="assign", n=n, m=m, algo="hungarian"))
     out.append(dict(kind="scores"))
     out.append(dict(kind="validate", seed=seed))
